@@ -2429,11 +2429,7 @@ func (m *Machine) processHandlers(e *Event) (Result, bool) {
 		}
 
 		handlerCalled = true
-		select {
-		case <-m.ctx.Done():
-			break
-		case m.handlerStart <- call:
-		}
+		m.handlerCallSend(call)
 
 		// reuse the timer each time
 		m.handlerTimer.Reset(m.HandlerTimeout)
@@ -2534,6 +2530,20 @@ func (m *Machine) processHandlers(e *Event) (Result, bool) {
 	}
 
 	return Executed, handlerCalled
+}
+
+// handlerCallSend passes the call to the handler loop, unless the machine
+// gets disposed meanwhile.
+func (m *Machine) handlerCallSend(call *handlerCall) {
+	// handlerStart gets closed by doDispose, possibly while waiting here
+	defer func() {
+		_ = recover()
+	}()
+
+	select {
+	case <-m.ctx.Done():
+	case m.handlerStart <- call:
+	}
 }
 
 func (m *Machine) handlerLoop() {
